@@ -424,7 +424,7 @@ class SysSim(Engine):
                 bad("stocks-match", f"stock '{s['name']}' is a {type(so).__name__}, requested {CLS[s['cls']].__name__}", field="class")
             if tuple(so.dims.letters) != tuple(s["dims"]):
                 bad("stocks-match", f"stock '{s['name']}' dims {so.dims.letters} instead of {tuple(s['dims'])}", field="dims")
-            if so.time_letter != "t":
+            if so.time_letter != world["dims"][0]["letter"] or (s["lt"] is not None and so.lifetime_model.time_letter != world["dims"][0]["letter"]):
                 bad("stocks-match", f"stock '{s['name']}' time letter {so.time_letter}", field="time_letter")
             pname = None if so.process is None else so.process.name
             want = None if s["process"] is None else world["processes"][s["process"]]
@@ -500,7 +500,8 @@ class SysSim(Engine):
                     s = sys_.stocks[world["stocks"][park["stock"] % len(world["stocks"])]["name"]]
                     self._book(s.inflow, lab, float(op["mass"]))
                     lab = dict(lab)
-                    lab["t"] = max(lab["t"], park["t2"] % len(world["dims"][0]["items"]))
+                    tl = world["dims"][0]["letter"]
+                    lab[tl] = max(lab[tl], park["t2"] % len(world["dims"][0]["items"]))
                     self._book(s.outflow, lab, float(op["mass"]))
                     self._probe(st, "parcel_parked_in_stock")
             self._update_levels(st)
